@@ -86,8 +86,10 @@ func normalizeSymbolicLinkAndEnsurePortable(path, target string) (string, error)
 	pathDepth := strings.Count(path, "/")
 	for _, component := range strings.Split(target, "/") {
 		// Update the depth.
-		if component == "." {
-			// No change to depth.
+		if component == "." || component == "" {
+			// No change to depth. Empty components (arising from repeated or
+			// trailing slashes) are ignored during path resolution and thus
+			// don't constitute a descent.
 		} else if component == ".." {
 			pathDepth--
 		} else {
